@@ -19,7 +19,7 @@
 (* TLC.  Anything HcAbs has no behaviour for (error, panic, hang, a view   *)
 (* that is neither before nor after) leaves the event unmatched.           *)
 (***************************************************************************)
-EXTENDS HcAbs, Json, IOUtils, Layout
+EXTENDS HcAbs, Json, IOUtils, Layout, StoreOrder
 
 Rec == ndJsonDeserialize(IOEnv.TRACE)
 
@@ -58,6 +58,18 @@ TCreate(E) ==
   /\ ViewOK(E.c, E.view)'
   /\ UNCHANGED stack
 
+\* The journal of the call, as operation classes, against the envelope HcStore was verified in
+\* (StoreOrder).  Internal structure is not a property: a call outside the envelope is printed as
+\* DRIFT and the step is still accepted.
+Took(E) == CASE E.op.o = "append" -> E.ret.t = "ok" /\ RawCount(E.op.runs) > 0
+             [] E.op.o = "clear" -> E.ret.t = "ok" /\ E.op.s < E.op.e
+             [] E.op.o = "proof" -> E.ret.t = "ok" /\ E.ret.applied
+             [] E.op.o = "mro" -> E.ret.t = "ok" /\ E.ret.changed
+             [] OTHER -> TRUE
+JournalDrift(E) ==
+  ("jc" \in DOMAIN E /\ E.ret.t \in {"ok", "notwritable", "some", "none"} /\ ~CallOrderOK(E.op.o, Took(E), E.jc))
+    => PrintT(<<"DRIFT", E.op.o, E.jc>>)
+
 IsDup(E) == E.op.o = "proof" /\ "dup" \in DOMAIN E.op
 \* A proof delivered a second time: not a well-formed answer any more (its upgrade does not start at
 \* the replica's length), so refusal is fine and changes nothing; acceptance is judged by TOp.
@@ -81,6 +93,7 @@ TOp(E) ==
   \* returned on a sealed core (make_read_only has returned) no store holds any 8-byte window
   \* of the secret key
   /\ JsIfLogged(E)
+  /\ JournalDrift(E)
   /\ (E.ret.t = "notwritable" => E.jn = 0)
   /\ (E.op.o = "mro" /\ ~cores[E.c].writable => E.jn = 0)
   /\ (cores[E.c].sealed)' => E.leak = <<>>
